@@ -321,3 +321,154 @@ Proof.
     cbn [getcur app mparse repeat]. now rewrite app_nil_r.
 Qed.
 End WithUs.
+
+(* ======================= windows.split is a left inverse of windows.join ======================= *)
+
+(* ---- single steps of the tokenizer ---- *)
+Lemma tok_bs e r : tokenize e (c_bs :: r) = tokenize (S e) r.
+Proof. reflexivity. Qed.
+
+Lemma tok_bs_run k : forall e x, tokenize e (repeat c_bs k ++ x) = tokenize (e + k) x.
+Proof.
+  induction k as [|k IH]; intros e x.
+  - now rewrite Nat.add_0_r.
+  - cbn [repeat app]. rewrite tok_bs, IH. f_equal. lia.
+Qed.
+
+Lemma tok_dq e r : tokenize e (c_dq :: r) =
+  repeat (TChar c_bs) (Nat.div2 e) ++ (if Nat.odd e then TChar c_dq else TQuote) :: tokenize 0 r.
+Proof. reflexivity. Qed.
+
+Lemma tok_other e c r : (c =? c_bs) = false -> (c =? c_dq) = false ->
+  tokenize e (c :: r) = repeat (TChar c_bs) e ++ (if wblank c then TSpace c else TChar c) :: tokenize 0 r.
+Proof. intros H1 H2. cbn [tokenize]. now rewrite H1, H2. Qed.
+
+(* ---- single steps of the splitter ---- *)
+Lemma add_last_snoc a w c : add_last (a ++ [w]) c = a ++ [w ++ [c]].
+Proof.
+  induction a as [|x a IH]; [reflexivity|].
+  destruct a as [|y a].
+  - reflexivity.
+  - change (add_last ((x :: y :: a) ++ [w]) c) with (x :: add_last ((y :: a) ++ [w]) c).
+    rewrite IH. reflexivity.
+Qed.
+
+Lemma sg_bs_run_q k : forall a w t,
+  split_go Quoted (a ++ [w]) (repeat (TChar c_bs) k ++ t) = split_go Quoted (a ++ [w ++ repeat c_bs k]) t.
+Proof.
+  induction k as [|k IH]; intros a w t.
+  - cbn [repeat app]. now rewrite app_nil_r.
+  - cbn [repeat app split_go]. rewrite add_last_snoc, IH. now rewrite <- app_assoc.
+Qed.
+
+Lemma sg_bs_run_w k : forall a w t,
+  split_go Word (a ++ [w]) (repeat (TChar c_bs) k ++ t) = split_go Word (a ++ [w ++ repeat c_bs k]) t.
+Proof.
+  induction k as [|k IH]; intros a w t.
+  - cbn [repeat app]. now rewrite app_nil_r.
+  - cbn [repeat app split_go]. rewrite add_last_snoc, IH. now rewrite <- app_assoc.
+Qed.
+
+Lemma sg_q_any c a w t :
+  split_go Quoted (a ++ [w]) ((if wblank c then TSpace c else TChar c) :: t) = split_go Quoted (a ++ [w ++ [c]]) t.
+Proof. destruct (wblank c); cbn [split_go]; now rewrite add_last_snoc. Qed.
+
+(* ---- the quoted form ---- *)
+Lemma split_wesc : forall s p a w rest, wok (negb (Nat.eqb p 0)) s = true ->
+  split_go Quoted (a ++ [w]) (tokenize 0 (wesc p s ++ c_dq :: rest)) =
+  split_go Word (a ++ [w ++ repeat c_bs p ++ s]) (tokenize 0 rest).
+Proof.
+  induction s as [|c r IH]; intros p a w rest Hok.
+  - cbn [wesc]. rewrite <- app_assoc, !tok_bs_run. cbn [Nat.add]. rewrite tok_dq, odd_double, div2_double.
+    rewrite sg_bs_run_q. cbn [split_go]. now rewrite app_nil_r.
+  - cbn [wesc]. cbn [wok] in Hok. destruct (c =? c_bs) eqn:Ebs.
+    + apply N.eqb_eq in Ebs. subst c. change (c_bs =? c_nl) with false in Hok. cbn [andb] in Hok.
+      rewrite IH by assumption. now rewrite repeat_mid.
+    + destruct (c =? c_dq) eqn:Edq.
+      * apply N.eqb_eq in Edq. subst c. change (c_dq =? c_nl) with false in Hok. cbn [andb] in Hok.
+        rewrite <- !app_assoc. rewrite <- !app_comm_cons. rewrite !tok_bs_run, tok_bs. cbn [Nat.add].
+        rewrite tok_dq, odd_sdouble, div2_sdouble. rewrite sg_bs_run_q. cbn [split_go]. rewrite add_last_snoc.
+        rewrite IH by assumption. cbn [repeat app]. now rewrite <- !app_assoc.
+      * destruct ((c =? c_nl) && is_nil r) eqn:Enl.
+        -- apply andb_true_iff in Enl as [Ec Er]. apply N.eqb_eq in Ec. subst c.
+           destruct r; [|discriminate]. destruct p; [|discriminate].
+           cbn [repeat app]. rewrite tok_other by reflexivity. change (wblank c_nl) with false. cbv iota.
+           cbn [repeat app split_go]. rewrite add_last_snoc. rewrite tok_dq.
+           cbn [Nat.odd Nat.even negb Nat.div2 repeat app split_go]. reflexivity.
+        -- cbn [andb] in Hok. rewrite <- app_assoc, <- app_comm_cons, tok_bs_run. cbn [Nat.add].
+           rewrite tok_other by assumption. rewrite sg_bs_run_q, sg_q_any.
+           rewrite IH by assumption. cbn [repeat app]. now rewrite <- !app_assoc.
+Qed.
+
+Section SplitWithUs.
+Variable us : char -> bool.
+Notation has_bad := (has_bad us).
+Notation quote := (quote us false).
+
+Lemma notbad_wblank c : bad_char us c = false -> wblank c = false.
+Proof. exact (notbad_blank us c). Qed.
+
+(* ---- the unquoted form ---- *)
+Lemma split_plain : forall s e a w rest, has_bad s = false -> (s <> [] \/ e = 0%nat) ->
+  split_go Word (a ++ [w]) (tokenize e (s ++ rest)) = split_go Word (a ++ [w ++ repeat c_bs e ++ s]) (tokenize 0 rest).
+Proof.
+  induction s as [|c r IH]; intros e a w rest Hb He.
+  - destruct He as [He|He]; [congruence|]. subst e. cbn [app repeat]. now rewrite app_nil_r.
+  - apply has_bad_cons in Hb as (Hc & Hend & Hr). cbn [app]. destruct (c =? c_bs) eqn:Ebs.
+    + apply N.eqb_eq in Ebs. subst c. cbn [andb] in Hend. rewrite tok_bs.
+      rewrite IH by (assumption || left; now apply at_end_nonnil). now rewrite repeat_mid.
+    + rewrite tok_other by (assumption || now apply (notbad_dq us)). rewrite (notbad_wblank c Hc).
+      rewrite sg_bs_run_w. cbn [split_go]. rewrite add_last_snoc.
+      rewrite IH by (assumption || now right). cbn [repeat app]. now rewrite <- !app_assoc.
+Qed.
+
+Lemma sg_between_run e : forall a c t,
+  split_go Between a (repeat (TChar c_bs) e ++ TChar c :: t) = split_go Word (a ++ [repeat c_bs e ++ [c]]) t.
+Proof.
+  destruct e as [|e]; intros a c t; [reflexivity|].
+  cbn [repeat app split_go]. rewrite sg_bs_run_w. cbn [split_go]. now rewrite add_last_snoc.
+Qed.
+
+Lemma split_plain_between : forall s e a rest, has_bad s = false -> s <> [] ->
+  split_go Between a (tokenize e (s ++ rest)) = split_go Word (a ++ [repeat c_bs e ++ s]) (tokenize 0 rest).
+Proof.
+  induction s as [|c r IH]; intros e a rest Hb Hne; [congruence|].
+  apply has_bad_cons in Hb as (Hc & Hend & Hr). cbn [app]. destruct (c =? c_bs) eqn:Ebs.
+  - apply N.eqb_eq in Ebs. subst c. cbn [andb] in Hend. rewrite tok_bs.
+    rewrite IH by (assumption || now apply at_end_nonnil). now rewrite repeat_mid.
+  - rewrite tok_other by (assumption || now apply (notbad_dq us)). rewrite (notbad_wblank c Hc).
+    rewrite sg_between_run. rewrite split_plain by (assumption || now right).
+    cbn [repeat app]. now rewrite <- !app_assoc.
+Qed.
+
+(* ---- one quoted word, any following text ---- *)
+Lemma split_quote s a rest : win_ok s = true ->
+  split_go Between a (tokenize 0 (quote s ++ rest)) = split_go Word (a ++ [s]) (tokenize 0 rest).
+Proof.
+  intros Hok. unfold WinQuote.quote, inner_quote_info. destruct s as [|c r].
+  - reflexivity.
+  - destruct (has_bad (c :: r)) eqn:B.
+    + unfold wrap_quotes. rewrite <- app_comm_cons, <- app_assoc. cbn [app].
+      rewrite tok_dq. cbn [Nat.odd Nat.even negb Nat.div2 repeat app split_go].
+      now rewrite split_wesc by assumption.
+    + rewrite split_plain_between by (assumption || congruence). reflexivity.
+Qed.
+
+Lemma split_join_gen : forall args a, Forall (fun s => win_ok s = true) args ->
+  split_go Between a (tokenize 0 (join us args)) = a ++ args.
+Proof.
+  unfold join. induction args as [|x l IH]; intros a H.
+  - cbn. now rewrite app_nil_r.
+  - inversion H as [|? ? Hx Hl]; subst. destruct l as [|y l].
+    + cbn [map join_sp]. rewrite <- (app_nil_r (quote x)). rewrite split_quote by assumption. reflexivity.
+    + cbn [map]. rewrite join_sp_cons2. rewrite split_quote by assumption.
+      rewrite tok_other by reflexivity. change (wblank c_sp) with true. cbv iota. cbn [repeat app split_go].
+      rewrite IH by assumption. now rewrite <- app_assoc.
+Qed.
+
+Theorem split_join args : Forall (fun s => win_ok s = true) args -> split (join us args) = args.
+Proof. intros H. unfold split. now rewrite split_join_gen. Qed.
+
+Theorem split_join_no_newline args : Forall (fun s => ~ In c_nl s) args -> split (join us args) = args.
+Proof. intros H. apply split_join. eapply Forall_impl; [|exact H]. exact win_ok_no_nl. Qed.
+End SplitWithUs.
